@@ -1,7 +1,7 @@
 (* C09 - Text is emitted line by line with exactly one correct terminator. *)
 From Coq Require Import List String ZArith NArith.
 Open Scope string_scope.
-From Pory Require Import Lexer Ast Parser Emitter Props1 TopProps.
+From Pory Require Import Lexer Ast Parser Emitter Props1 TopProps Tables TablesOK.
 Import ListNotations.
 
 Theorem suffix_table :
@@ -37,3 +37,8 @@ Theorem text_block_shape : forall x,
   emit_text None x = ILabel (xname x) (xglob x) :: map (fun line => IData (directive x) line) (split_nl (xvalue x) []).
 Proof. exact TopProps.emit_text_shape. Qed.
 Print Assumptions text_block_shape.
+
+(* the terminator table of the model is textSuffixes of parser/parser.go (regenerated from /repo on every run) *)
+Theorem suffixes_are_the_go_table : forall ty, text_suffix ty = assoc go_text_suffixes ty.
+Proof. exact text_suffix_agree. Qed.
+Print Assumptions suffixes_are_the_go_table.
